@@ -1,6 +1,6 @@
-SPECIFICATION FilterSpec
+SPECIFICATION ScopeSpec
 CONSTANTS
-  Which = "filter"
+  Which = "scope"
   DeepAlpha <- Alpha4
   DeepMax = 2
   WideAlpha <- AlphaAll
@@ -9,8 +9,5 @@ CONSTANTS
   StrMax = 2
   ListMax = 2
   ScopeListMax = 1
-INVARIANT LawFilterAgree
-INVARIANT LawEmptyFilter
-INVARIANT LawWeaker
-INVARIANT LawStrStronger
 POSTCONDITION Visited
+INVARIANT LawRefl
